@@ -511,7 +511,11 @@ def _index_scan_rules(ck, P, b):
     ok2 = False
     why2 = "no filter over the index entries"
     if len(flt) >= 1:
-        f = flt[0]["a"][0]
+        # consecutive .filter(..).filter(..) calls on the same chain are one conjunction
+        chain = [flt[0]]
+        for other in flt[1:]:
+            if any(ir.contains(other["recv"], lambda y, c_=c_: y is c_) or ir.contains(c_["recv"], lambda y: y is other) for c_ in chain):
+                chain.append(other)
         conj = []
 
         def split(c):
@@ -521,8 +525,12 @@ def _index_scan_rules(ck, P, b):
                 split(c["r"])
             else:
                 conj.append(c)
-        split(f["body"])
-        fb = [x for p in f["params"] for x in ir.pat_binds(p)]
+        fbs = set()
+        for fl_ in chain:
+            f = fl_["a"][0]
+            split(f["body"])
+            fbs |= {x["hid"] for p in f["params"] for x in ir.pat_binds(p)}
+        fb = [{"hid": h} for h in fbs]
         cont = [c for c in conj if c.get("k") == "mcall" and c.get("name") == "contains3"]
         nonempty = [c for c in conj if ir.cmp_norm(c) is not None and ir.cmp_norm(c)[0].endswith(".length") and ir.cmp_norm(c)[1] in (">", "!=") and ir.cmp_norm(c)[2] == "0"]
         box_ok = False
@@ -535,7 +543,7 @@ def _index_scan_rules(ck, P, b):
             al = ir.Aliases(b)
             from_arg = init is not None and bp and al.hid(ir.strip(init)["recv"] if ir.strip(init).get("k") == "mcall" else ir.strip(init)) in {al.canon(bp[0]["hid"])} | _clones_of(b, al, bp[0]["hid"])
             box_ok = len(inter) == 1 and comp.deep_place(inter[0]["a"][0], lets) == blk_place + ".get_global_bbox()" and from_arg
-            coord_ok = bool(fb) and ir.local_hid(cont[0]["a"][0]) == fb[0]["hid"]
+            coord_ok = bool(fb) and ir.local_hid(cont[0]["a"][0]) in fbs
             box_ok = box_ok and coord_ok
         ok2 = len(conj) == 2 and len(cont) == 1 and len(nonempty) == 1 and box_ok
         why2 = "filter conjuncts: %s" % [c.get("src") or ir.place_str(c) for c in conj]
@@ -547,8 +555,27 @@ def _index_scan_rules(ck, P, b):
     if len(loops) == 1:
         lh = ir.local_hid(loops[0]["iter"])
         order = {id(n): i for i, n in enumerate(ir.walk_nodes(b["body"]))}
-        srt = [n for n in ir.walk_nodes(b["body"]) if n.get("k") == "mcall" and n.get("name") in ("sort_by_key", "sort_unstable_by_key", "sort_by_cached_key") and ir.local_hid(n["recv"]) == lh
-               and n["a"] and ir.contains(n["a"][0], lambda y: y.get("k") == "field" and y.get("name") == "offset")]
+        def by_offset(n):
+            if not n.get("a") or n["a"][0].get("k") != "closure":
+                return False
+            clo = n["a"][0]
+            offs = [y for y in ir.walk_nodes(clo["body"]) if y.get("k") == "field" and y.get("name") == "offset"]
+            if n["name"] in ("sort_by_key", "sort_unstable_by_key", "sort_by_cached_key"):
+                return len(offs) == 1
+            # comparator form: a.offset.cmp(&b.offset) in parameter order (ascending)
+            ps = [x["hid"] for p_ in clo["params"] for x in ir.pat_binds(p_)]
+            cm = [y for y in ir.walk_nodes(clo["body"]) if y.get("k") == "mcall" and y.get("name") in ("cmp", "partial_cmp")]
+            if len(ps) != 2 or len(cm) != 1 or len(offs) != 2:
+                return False
+
+            def root(e):
+                e = ir.strip(e)
+                while e is not None and e.get("k") == "field":
+                    e = ir.strip(e["e"])
+                return ir.local_hid(e)
+            return root(cm[0]["recv"]) == ps[0] and root(cm[0]["a"][0]) == ps[1] and ir.strip(cm[0]["recv"]).get("name") == "offset" and ir.strip(cm[0]["a"][0]).get("name") == "offset"
+        srt = [n for n in ir.walk_nodes(b["body"]) if n.get("k") == "mcall" and n.get("name") in ("sort_by_key", "sort_unstable_by_key", "sort_by_cached_key", "sort_by", "sort_unstable_by")
+               and ir.local_hid(n["recv"]) == lh and by_offset(n)]
         ok3 = len(srt) >= 1 and order[id(srt[0])] < order[id(loops[0])]
     ck.check(ok3, "R-INDEX-SCAN", key + "|sorted", "entries are sorted by offset before they are merged into chunks", "entries are not sorted by offset before chunking (Chunk::push requires ascending offsets; de-duplicated tiles are not in index order)", ir.loc(loops[0]) if loops else ir.loc(b))
     # V6: every entry ends up in exactly one chunk, every chunk in the chunk list
